@@ -42,6 +42,23 @@ CLAIMED["C07"] = dict(
     note="Trusted: z3, ref/rv32.py (validated as under C08), the proxy engine. Known findings in RVC (undeclared link/sp writes, shift/andi rd not declared read, consequences of the C08 register aliasing) are listed. Outside: other ISAs, CSR/system, F/D, per-call extra_uses/clobbers. Memory is 8 periodic symbolic bytes plus a probe address (sufficient for one instruction).",
     technique=TECH)
 
+TECH_ENUM = "bounded symbolic execution of the real ppci code (symx) where the only symbolic inputs are the graph/grammar-shaped ones; the code's own traversal forks on what it inspects, the solver discharges the oracle formula over everything it did not inspect; every path validated concretely"
+CLAIMED["C34"] = dict(
+    level="model_checking", design="§4 C34",
+    text="Bounded symbolic execution of ppci's real Project/Target/TaskRunner code over a symbolic dependency graph (one boolean per ordered pair incl. self-dependencies) and request set: all labelled graphs on <=4 (quick) / <=5 (thorough) targets. Loop reporting is proved equivalent to a reachable cycle; the recorded execution is proved to run each needed target exactly once and after all its dependencies; Project.dependencies equals the transitive closure.",
+    note="Degenerates, honestly, to solver-driven bounded-exhaustive graph enumeration: the code's traversal decides which edges are inspected, the solver covers the rest. Set-iteration orders are those of PYTHONHASHSEED=0 (other orders only up to relabelling). Oracle: ref/domdef.py cycle/closure predicates. n>=6 outside.",
+    technique=TECH_ENUM)
+CLAIMED["C25"] = dict(
+    level="model_checking", design="§4 C25",
+    text="The real Lengauer-Tarjan, dominator-tree/interval, dominance-frontier, reachability, post-dominator and fixed-point implementations (and CfgInfo on real IR) run on every labelled digraph whose nodes are all reachable from the entry (edge booleans symbolic, reachability premise via assume) and are compared with path-based definitions (ref/domdef.py) as solver obligations. Quick: n<=4; thorough: n<=4 with self loops, n=5 without (time-boxed per job, exhaustive only where the queue drains).",
+    note="Solver-driven bounded-exhaustive enumeration; edge booleans are the only symbolic inputs. Set-iteration order fixed by an index-hash node subclass. Post-dominance assumes a sink exit reachable from every node. Outside: n>=6, unreachable nodes, calculate_loops/relooper.",
+    technique=TECH_ENUM)
+CLAIMED["C32"] = dict(
+    level="model_checking", design="§4 C32",
+    text="For every grammar of a bounded family (<=3 productions exhaustively for RHS<=2, seeded samples up to 4 productions / RHS<=3; 2 terminals, 2 non-terminals, epsilon allowed) the real LrParserBuilder tables are built and the real LrParser.parse runs on a SYMBOLIC token sequence (symbolic length 0..5/6, symbolic kinds). For conflict-free grammars the solver proves per path: accept <=> membership (independent chart recogniser ref/cyk.py, incl. 'no completion of a rejected prefix is in the language' as one query), the returned value is the derivation tree of the consumed tokens, the parse ends only by value or ParserException. For silently resolved shift/reduce conflicts: accepted => member.",
+    note="Bounded model checking over all token sequences up to the length bound per enumerated grammar; the 3-/4-production space is sampled, not exhaustive. Grammars rejected with ParserGenerationException are counted and skipped (builder completeness not claimed). Earley parser not covered. Builder set-iteration nondeterminism: one build per harness.",
+    technique=TECH_ENUM)
+
 NOT_APPLICABLE = {
     "C04": "property is about native execution of whole gcc/ppci-compiled programs; no x86-64 semantics model is in reach and running binaries is enumeration of concrete runs, not solver-based checking",
     "C06": "dataflow property over uninterpreted instruction semantics: a checker would be tag propagation in which a solver decides nothing",
